@@ -43,6 +43,9 @@ def run_package_property(run, tier, prefixes, ntraces=None, nsteps=None, sources
         run.notes["retype_sweep_histories"] = len(sweep)
         traces = traces + sweep
         # every sample file exported to flat XML straight after being opened (path / memory / folder), before any part was read
+        msweep = pd.generate(0, run.seed, 7, sources="merge-sweep")
+        run.notes["merge_sweep_histories"] = len(msweep)
+        traces = traces + msweep
         fsweep = pd.generate(0, run.seed, 3, sources="flat-sweep")
         run.notes["flat_sweep_histories"] = len(fsweep)
         traces = traces + fsweep
